@@ -156,6 +156,19 @@ pub fn run(args: &Args) {
                     books[bi].get_sheet_mut(&si).unwrap().remove_cell(pos);
                     hist.push(format!("book{} sheet{} delete {:?}", bi, si, pos));
                 }
+                6 if opi % 2 == 0 => {
+                    // overwrite with a blank cell that only carries formatting, through set_cell
+                    let mut blank = Cell::default();
+                    blank.get_coordinate_mut().set_col_num(pos.0).set_row_num(pos.1);
+                    blank.get_style_mut().set_background_color("FFFFFF00");
+                    books[bi].get_sheet_mut(&si).unwrap().set_cell(blank);
+                    hist.push(format!("book{} sheet{} overwrite {:?} with a blank formatted cell (set_cell)", bi, si, pos));
+                    // the reachable set is read through getters: make sure the overwrite took place, or the old text would count as reachable
+                    let still = books[bi].get_sheet(&si).unwrap().get_cell(pos).map(|c| c.get_value().to_string()).unwrap_or_default();
+                    if !still.is_empty() {
+                        panic!("overwritten text {:?} is still in the cell after set_cell(blank)", still);
+                    }
+                }
                 6 => {
                     books[bi].get_sheet_mut(&si).unwrap().get_cell_mut(pos).set_value_number(opi as f64);
                     hist.push(format!("book{} sheet{} overwrite {:?} with a number", bi, si, pos));
